@@ -67,8 +67,6 @@ Qed.
 
 Definition crashed (r : presult) : bool :=
   match r with PPanic _ | POutOfFuel _ => true | _ => false end.
-Definition unevaluable (r : presult) : bool :=
-  match r with PUnevaluable _ => true | _ => false end.
 Definition contract_broken (r : presult) : bool :=
   match r with PContractBroken _ => true | _ => false end.
 
@@ -95,27 +93,21 @@ Theorem execute_doc_cases ES d opname raw W :
   (exists data errs, r = PExecuted data errs /\
                      (data = None -> errs <> []) /\
                      (forall j, data = Some j -> ExeA.ArgData.json_finite j = true)) \/
-  (exists c, r = PContractBroken c) \/
-  (exists x o vv, r = PUnevaluable x /\
-                  ExeA.ArgModel.get_operation (exe_of_syn d) opname = ExeA.ArgModel.GOp o /\
-                  ExeA.ArgModel.coerce_request_vars ES o raw = Val.Values.Ok vv /\
-                  ExeA.ArgHyps.dirs_evaluable (ExeA.ArgData.doc_of (exe_of_syn d) o vv) (ExeA.ArgArgs.env_of_vars vv) = false).
+  (exists c, r = PContractBroken c).
 Proof.
   intros Hs. apply andb_true_iff in Hs as [Hn Hc]. unfold execute_doc.
   destruct (ExeA.ArgModel.get_operation (exe_of_syn d) opname) as [o|p|] eqn:Hg.
   - destruct (ExeA.ArgModel.coerce_request_vars ES o raw) as [vv| |] eqn:Hv.
     + set (D := ExeA.ArgData.doc_of (exe_of_syn d) o vv). set (E := ExeA.ArgArgs.env_of_vars vv).
       destruct (ExeA.ArgHyps.doc_positions_okb D) eqn:Hp; cbn [negb].
-      2:{ right; left. eexists; reflexivity. }
-      destruct (ExeA.ArgHyps.dirs_evaluable D E) eqn:He; cbn [negb].
-      2:{ right; right. eexists _, o, vv. auto. }
-      destruct (ExeA.ArgSpec.doc_ok ES D E (ExeA.ArgModel.default_fuel D) (ExeA.ArgModel.default_fuel D)) eqn:Hd; cbn [negb].
-      2:{ right; left. eexists; reflexivity. }
-      destruct (ExeA.ArgProofs.exec_total ES D E (ExeA.ArgModel.default_fuel D) Hn Hp (ExeA.ArgModel.default_fuel D) Hd W)
+      2:{ right. eexists; reflexivity. }
+      destruct (ExeA.ArgSpec.doc_ok_nodirs ES D E (ExeA.ArgModel.default_fuel D) (ExeA.ArgModel.default_fuel D)) eqn:Hd; cbn [negb].
+      2:{ right. eexists; reflexivity. }
+      destruct (ExeA.ArgProofs.exec_total_nodirs ES D E (ExeA.ArgModel.default_fuel D) Hn Hp (ExeA.ArgModel.default_fuel D) W Hd)
         as (data & errs & Hr).
       left. exists data, errs. rewrite Hr. cbn [of_run]. split; [reflexivity|]. split.
       * intros ->. eapply run_none_has_error. exact Hr.
-      * intros j ->. eapply ExeA.ArgProofs.exec_data_finite; eauto.
+      * intros j ->. exact (ExeA.ArgProofs.exec_data_finite_nodirs ES D E _ Hn Hp _ W j errs Hd Hr).
     + left. unfold ExeA.ArgModel.run_request. rewrite Hg, Hv. cbn [of_run].
       eexists _, _. split; [reflexivity|]. split; [intros _; discriminate|intros j Hj; discriminate].
     + exfalso. unfold ExeA.ArgModel.coerce_request_vars in Hv.
@@ -133,52 +125,33 @@ Theorem pipeline_never_panics VS F ES bs opname raw W :
 Proof.
   intro Hn. unfold pipeline_order.
   destruct (front_cases VS F bs) as [(e & es & t & H & _)|[(d & e & es & H & _)|(d & H & _)]]; rewrite H; try reflexivity.
-  destruct (execute_doc_cases ES d opname raw W Hn) as [(data & errs & Hr & _)|[(c & Hr)|(x & o & vv & Hr & _)]];
-    rewrite Hr; reflexivity.
+  destruct (execute_doc_cases ES d opname raw W Hn) as [(data & errs & Hr & _)|(c & Hr)]; rewrite Hr; reflexivity.
 Qed.
 
-(** the outcomes, classified: a response (with data or errors, serialisable data), a broken stage
-    contract, or a request whose @skip/@include conditions have no boolean value *)
+(** the outcomes, classified: a response (with data or errors, serialisable data) or a broken stage
+    contract — nothing else, whatever the variables *)
 Theorem pipeline_cases VS F ES bs opname raw W :
   schema_accepted ES = true ->
   let r := pipeline_order pi VS F ES bs opname raw W in
-  (is_response r = true /\ data_or_errors_p r = true /\ serialisable_p r = true) \/
-  contract_broken r = true \/
-  (unevaluable r = true /\
-   exists d o vv, parse_and_validate_order pi VS F bs = FAccepted d /\
-                  ExeA.ArgModel.get_operation (exe_of_syn d) opname = ExeA.ArgModel.GOp o /\
-                  ExeA.ArgModel.coerce_request_vars ES o raw = Val.Values.Ok vv /\
-                  ExeA.ArgHyps.dirs_evaluable (ExeA.ArgData.doc_of (exe_of_syn d) o vv) (ExeA.ArgArgs.env_of_vars vv) = false).
+  (is_response r = true /\ data_or_errors_p r = true /\ serialisable_p r = true) \/ contract_broken r = true.
 Proof.
   intro Hn. unfold pipeline_order.
   destruct (front_cases VS F bs) as [(e & es & t & H & _)|[(d & e & es & H & _)|(d & H & _)]]; rewrite H.
   - left. auto.
   - left. auto.
-  - destruct (execute_doc_cases ES d opname raw W Hn)
-      as [(data & errs & Hr & Hne & Hfin)|[(c & Hr)|(x & o & vv & Hr & Hg & Hv & He)]]; rewrite Hr.
+  - destruct (execute_doc_cases ES d opname raw W Hn) as [(data & errs & Hr & Hne & Hfin)|(c & Hr)]; rewrite Hr.
     + left. split; [reflexivity|]. split.
       * destruct data; [reflexivity|]. cbn. destruct errs; [exfalso; apply (Hne eq_refl); reflexivity|reflexivity].
       * destruct data as [j|]; [|reflexivity]. cbn. apply Hfin. reflexivity.
-    + right; left. reflexivity.
-    + right; right. split; [reflexivity|]. exists d, o, vv. auto.
+    + right. reflexivity.
 Qed.
 
-(** a response, whenever the conditions are evaluable and no contract check fails *)
-Definition request_evaluable VS F ES bs opname raw : Prop :=
-  forall d o vv, parse_and_validate_order pi VS F bs = FAccepted d ->
-                 ExeA.ArgModel.get_operation (exe_of_syn d) opname = ExeA.ArgModel.GOp o ->
-                 ExeA.ArgModel.coerce_request_vars ES o raw = Val.Values.Ok vv ->
-                 ExeA.ArgHyps.dirs_evaluable (ExeA.ArgData.doc_of (exe_of_syn d) o vv) (ExeA.ArgArgs.env_of_vars vv) = true.
-
 Theorem pipeline_total VS F ES bs opname raw W :
-  schema_accepted ES = true -> request_evaluable VS F ES bs opname raw ->
+  schema_accepted ES = true ->
   let r := pipeline_order pi VS F ES bs opname raw W in
   is_response r = true \/ contract_broken r = true.
 Proof.
-  intros Hn Hev r. destruct (pipeline_cases VS F ES bs opname raw W Hn) as [(H & _)|[H|(_ & d & o & vv & Ha & Hg & Hv & He)]].
-  - left; exact H.
-  - right; exact H.
-  - rewrite (Hev d o vv Ha Hg Hv) in He. discriminate.
+  intros Hn r. destruct (pipeline_cases VS F ES bs opname raw W Hn) as [(H & _)|H]; [left|right]; exact H.
 Qed.
 
 Theorem pipeline_data_or_errors VS F ES bs opname raw W :
@@ -186,9 +159,8 @@ Theorem pipeline_data_or_errors VS F ES bs opname raw W :
   is_response (pipeline_order pi VS F ES bs opname raw W) = true ->
   data_or_errors_p (pipeline_order pi VS F ES bs opname raw W) = true.
 Proof.
-  intros Hn Hr. destruct (pipeline_cases VS F ES bs opname raw W Hn) as [(_ & H & _)|[H|(H & _)]]; [exact H| |].
-  - destruct (pipeline_order pi VS F ES bs opname raw W); discriminate.
-  - destruct (pipeline_order pi VS F ES bs opname raw W); discriminate.
+  intros Hn Hr. destruct (pipeline_cases VS F ES bs opname raw W Hn) as [(_ & H & _)|H]; [exact H|].
+  destruct (pipeline_order pi VS F ES bs opname raw W); discriminate.
 Qed.
 
 Theorem pipeline_serialisable VS F ES bs opname raw W j errs :
@@ -196,24 +168,23 @@ Theorem pipeline_serialisable VS F ES bs opname raw W j errs :
   pipeline_order pi VS F ES bs opname raw W = PExecuted (Some j) errs ->
   ExeA.ArgData.json_finite j = true.
 Proof.
-  intros Hn Hr. destruct (pipeline_cases VS F ES bs opname raw W Hn) as [(_ & _ & H)|[H|(H & _)]];
-    rewrite Hr in H; [exact H|discriminate|discriminate].
+  intros Hn Hr. destruct (pipeline_cases VS F ES bs opname raw W Hn) as [(_ & _ & H)|H];
+    rewrite Hr in H; [exact H|discriminate].
 Qed.
 
 (** ** the open obligations, as named propositions, and what follows from them *)
 
 (** C04's half (not proved there yet; stated in the header of Properties/C01.v as
     [validate_ok_doc_ok]): a document the validator accepts satisfies the executor's typing
-    hypothesis, for every operation of it and all coerced variables that give a boolean to every
-    condition.  [VS] and [ES] must describe the same schema. *)
+    hypothesis (without its directive conjunct: [doc_ok_nodirs]), for every operation of it and
+    all coerced variables.  [VS] and [ES] must describe the same schema. *)
 Definition validate_establishes_doc_ok VS F ES : Prop :=
   forall bs d opname o vv,
     parse_and_validate_order pi VS F bs = FAccepted d ->
     ExeA.ArgModel.get_operation (exe_of_syn d) opname = ExeA.ArgModel.GOp o ->
     let D := ExeA.ArgData.doc_of (exe_of_syn d) o vv in
     let E := ExeA.ArgArgs.env_of_vars vv in
-    ExeA.ArgHyps.dirs_evaluable D E = true ->
-    ExeA.ArgSpec.doc_ok ES D E (ExeA.ArgModel.default_fuel D) (ExeA.ArgModel.default_fuel D) = true.
+    ExeA.ArgSpec.doc_ok_nodirs ES D E (ExeA.ArgModel.default_fuel D) (ExeA.ArgModel.default_fuel D) = true.
 
 (** C06's half is proved (Pipe/PositionsProofs.v, from C06_parse_bytes_pos_injective): the selection
     nodes of a parsed text have pairwise distinct positions; what is left of [doc_positions_okb] is
@@ -237,28 +208,23 @@ Qed.
 Theorem pipeline_response_if_obligations VS F ES bs opname raw W :
   schema_accepted ES = true ->
   validate_establishes_doc_ok VS F ES -> text_positions_small bs ->
-  request_evaluable VS F ES bs opname raw ->
   is_response (pipeline_order pi VS F ES bs opname raw W) = true.
 Proof.
-  intros Hn Hv Hp Hev.
-  destruct (pipeline_cases VS F ES bs opname raw W Hn) as [(H & _)|[H|(H & d & o & vv & Ha & Hg & Hc & He)]].
-  - exact H.
-  - (* a broken contract: excluded by the two obligations *)
-    exfalso. revert H. unfold pipeline_order.
-    destruct (front_cases VS F bs) as [(e & es & t & H & _)|[(d & e & es & H & _)|(d & H & Hparse & _)]]; rewrite H; try discriminate.
-    unfold execute_doc.
-    destruct (ExeA.ArgModel.get_operation (exe_of_syn d) opname) as [o|p|] eqn:Hg.
-    + destruct (ExeA.ArgModel.coerce_request_vars ES o raw) as [vv| |] eqn:Hc.
-      * assert (Hpos : ExeA.ArgHyps.doc_positions_okb (ExeA.ArgData.doc_of (exe_of_syn d) o vv) = true).
-        { rewrite (positions_contract_is_size bs d [] opname o vv Hparse Hg). exact (Hp d [] o opname vv Hparse Hg). }
-        rewrite Hpos. cbn [negb]. rewrite (Hev d o vv H Hg Hc). cbn [negb].
-        rewrite (Hv bs d opname o vv H Hg (Hev d o vv H Hg Hc)). cbn [negb].
-        destruct (ExeA.ArgModel.run ExeA.ArgModel.fixed ES _ _ _ W); discriminate.
-      * destruct (ExeA.ArgModel.run_request ExeA.ArgModel.fixed ES (exe_of_syn d) opname raw 0 W); discriminate.
-      * discriminate.
+  intros Hn Hv Hp.
+  destruct (pipeline_cases VS F ES bs opname raw W Hn) as [(H & _)|H]; [exact H|].
+  exfalso. revert H. unfold pipeline_order.
+  destruct (front_cases VS F bs) as [(e & es & t & H & _)|[(d & e & es & H & _)|(d & H & Hparse & _)]]; rewrite H; try discriminate.
+  unfold execute_doc.
+  destruct (ExeA.ArgModel.get_operation (exe_of_syn d) opname) as [o|p|] eqn:Hg.
+  - destruct (ExeA.ArgModel.coerce_request_vars ES o raw) as [vv| |] eqn:Hc.
+    + assert (Hpos : ExeA.ArgHyps.doc_positions_okb (ExeA.ArgData.doc_of (exe_of_syn d) o vv) = true).
+      { rewrite (positions_contract_is_size bs d [] opname o vv Hparse Hg). exact (Hp d [] o opname vv Hparse Hg). }
+      rewrite Hpos. cbn [negb]. rewrite (Hv bs d opname o vv H Hg). cbn [negb].
+      destruct (ExeA.ArgModel.run ExeA.ArgModel.fixed ES _ _ _ W); discriminate.
     + destruct (ExeA.ArgModel.run_request ExeA.ArgModel.fixed ES (exe_of_syn d) opname raw 0 W); discriminate.
-    + destruct (ExeA.ArgModel.run_request ExeA.ArgModel.fixed ES (exe_of_syn d) opname raw 0 W); discriminate.
-  - rewrite (Hev d o vv Ha Hg Hc) in He. discriminate.
+    + discriminate.
+  - destruct (ExeA.ArgModel.run_request ExeA.ArgModel.fixed ES (exe_of_syn d) opname raw 0 W); discriminate.
+  - destruct (ExeA.ArgModel.run_request ExeA.ArgModel.fixed ES (exe_of_syn d) opname raw 0 W); discriminate.
 Qed.
 
 (** [pipeline_never_panics], spelled out on the outcome *)
